@@ -12,6 +12,7 @@ import (
 	"flag"
 	"fmt"
 	"go/ast"
+	"go/parser"
 	"go/token"
 	"go/types"
 	"os"
@@ -623,6 +624,7 @@ func main() {
 	overlay := map[string]string{}
 	bad := false
 	totalSites := 0
+	totalTicks := 0
 	for _, p := range pkgs {
 		for _, e := range p.Errors {
 			fmt.Fprintln(os.Stderr, "simgen: package error:", e)
@@ -644,6 +646,16 @@ func main() {
 				pkgUses: map[*types.PkgName]int{}}
 			rw.prepare()
 			text := rw.finish()
+			if !strings.HasSuffix(rel, "_easyjson.go") {
+				t2, n, err := addTicks(text, rel)
+				if err != nil {
+					fmt.Fprintln(os.Stderr, "simgen: tick pass:", rel, err)
+					bad = true
+				} else {
+					text = t2
+					totalTicks += n
+				}
+			}
 			for _, e := range rw.errs {
 				fmt.Fprintln(os.Stderr, "simgen:", e)
 				bad = true
@@ -676,5 +688,75 @@ func main() {
 		fmt.Fprintln(os.Stderr, "simgen:", err)
 		os.Exit(2)
 	}
-	fmt.Printf("simgen: %d files, %d instrumentation sites\n", len(overlay), totalSites)
+	fmt.Printf("simgen: %d files, %d instrumentation sites, %d preemption ticks\n", len(overlay), totalSites, totalTicks)
+}
+
+
+// addTicks is the second pass: it parses the rewritten file and inserts a preemption tick
+// before every statement of every block, case clause and comm clause.  A tick is a potential
+// scheduling point *between two ordinary statements* (no channel or lock operation in sight):
+// in runs where preemption is enabled the scheduler parks a goroutine there with a seeded
+// pseudo-random decision, which lets another goroutine run in the middle of a non-atomic
+// sequence of reads and writes of shared data.  Data races thereby show through their
+// consequences (mixed-up fields, stale memo entries), which channel-level scheduling cannot do.
+func addTicks(text, rel string) (string, int, error) {
+	fset := token.NewFileSet()
+	f, err := parser.ParseFile(fset, rel, text, parser.ParseComments)
+	if err != nil {
+		return "", 0, err
+	}
+	var offs []int
+	clauseBlocks := map[*ast.BlockStmt]bool{} // bodies of switch / select: their list holds the clauses
+	add := func(list []ast.Stmt) {
+		for _, st := range list {
+			switch st.(type) {
+			case *ast.EmptyStmt:
+				continue
+			}
+			offs = append(offs, fset.Position(st.Pos()).Offset)
+		}
+	}
+	ast.Inspect(f, func(n ast.Node) bool {
+		switch x := n.(type) {
+		case *ast.FuncDecl:
+			if x.Name.Name == "init" && x.Recv == nil {
+				return false // package initialisation runs before any run exists
+			}
+		case *ast.SwitchStmt:
+			clauseBlocks[x.Body] = true
+		case *ast.TypeSwitchStmt:
+			clauseBlocks[x.Body] = true
+		case *ast.SelectStmt:
+			clauseBlocks[x.Body] = true
+		case *ast.BlockStmt:
+			if !clauseBlocks[x] {
+				add(x.List)
+			}
+		case *ast.CaseClause:
+			add(x.Body)
+		case *ast.CommClause:
+			add(x.Body)
+		}
+		return true
+	})
+	if len(offs) == 0 {
+		return text, 0, nil
+	}
+	sort.Ints(offs)
+	var sb strings.Builder
+	pos := 0
+	for i, o := range offs {
+		if i > 0 && o == offs[i-1] {
+			continue
+		}
+		sb.WriteString(text[pos:o])
+		sb.WriteString("xsimtick.Tick(); ")
+		pos = o
+	}
+	sb.WriteString(text[pos:])
+	out := sb.String()
+	// import under a private alias, as a separate declaration right after the package clause
+	pe := fset.Position(f.Name.End()).Offset
+	out = out[:pe] + "\nimport xsimtick \"" + simMod + "/simrt\"\n" + out[pe:]
+	return out, len(offs), nil
 }
